@@ -288,6 +288,12 @@ impl ConfigOptions {
                 config.chunk_max_size(),
             )?;
         }
+        if matches!(config.chunker(), Chunker::FixedSize) && config.chunk_size() == 0 {
+            return Err(RusticError::new(
+                ErrorKind::Unsupported,
+                "Chunk size must be larger than 0 for the fixed size chunker.",
+            ));
+        }
 
         if let Some(compression) = self.set_compression {
             if config.version == 1 && compression != 0 {
